@@ -1,5 +1,5 @@
 (* C02sim_i -- per-state simulation lemmas (M_tok state method vs S_tok), see Proofs/C02sim.v and C02simtac.v.
-   Each lemma:  R m s -> st m = X -> wk m = true -> covered m = true -> simok s (step_X m). *)
+   Each lemma:  R m s -> st m = X -> wk m = true -> plain m = true -> simok s (step_X m). *)
 From Coq Require Import NArith List Bool Arith Lia ZifyBool ZifyN.
 From Verif Require Import Sx Str.
 From Verif.Gen Require Import Entities Tokenizer.
@@ -9,24 +9,24 @@ From Verif.Proofs Require Import C02a C02dict C08 C02sim C02simtac.
 Import ListNotations.
 Local Open Scope N_scope.
 
-Lemma sim_afterDoctypeSystemIdentifierState : forall m s, R m s -> st m = afterDoctypeSystemIdentifierState -> wk m = true -> covered m = true -> simok s (step_afterDoctypeSystemIdentifierState m).
+Lemma sim_afterDoctypeSystemIdentifierState : forall m s, R m s -> st m = afterDoctypeSystemIdentifierState -> wk m = true -> plain m = true -> simok s (step_afterDoctypeSystemIdentifierState m).
 Proof. sim_state step_afterDoctypeSystemIdentifierState. Qed.
 
-Lemma sim_beforeDoctypePublicIdentifierState : forall m s, R m s -> st m = beforeDoctypePublicIdentifierState -> wk m = true -> covered m = true -> simok s (step_beforeDoctypePublicIdentifierState m).
+Lemma sim_beforeDoctypePublicIdentifierState : forall m s, R m s -> st m = beforeDoctypePublicIdentifierState -> wk m = true -> plain m = true -> simok s (step_beforeDoctypePublicIdentifierState m).
 Proof. sim_state step_beforeDoctypePublicIdentifierState. Qed.
 
-Lemma sim_doctypeSystemIdentifierSingleQuotedState : forall m s, R m s -> st m = doctypeSystemIdentifierSingleQuotedState -> wk m = true -> covered m = true -> simok s (step_doctypeSystemIdentifierSingleQuotedState m).
+Lemma sim_doctypeSystemIdentifierSingleQuotedState : forall m s, R m s -> st m = doctypeSystemIdentifierSingleQuotedState -> wk m = true -> plain m = true -> simok s (step_doctypeSystemIdentifierSingleQuotedState m).
 Proof. sim_state step_doctypeSystemIdentifierSingleQuotedState. Qed.
 
-Lemma sim_scriptDataDoubleEscapeEndState : forall m s, R m s -> st m = scriptDataDoubleEscapeEndState -> wk m = true -> covered m = true -> simok s (step_scriptDataDoubleEscapeEndState m).
+Lemma sim_scriptDataDoubleEscapeEndState : forall m s, R m s -> st m = scriptDataDoubleEscapeEndState -> wk m = true -> plain m = true -> simok s (step_scriptDataDoubleEscapeEndState m).
 Proof. sim_state step_scriptDataDoubleEscapeEndState. Qed.
 
-Lemma sim_scriptDataDoubleEscapedState : forall m s, R m s -> st m = scriptDataDoubleEscapedState -> wk m = true -> covered m = true -> simok s (step_scriptDataDoubleEscapedState m).
+Lemma sim_scriptDataDoubleEscapedState : forall m s, R m s -> st m = scriptDataDoubleEscapedState -> wk m = true -> plain m = true -> simok s (step_scriptDataDoubleEscapedState m).
 Proof. sim_state step_scriptDataDoubleEscapedState. Qed.
 
-Lemma sim_scriptDataEndTagOpenState : forall m s, R m s -> st m = scriptDataEndTagOpenState -> wk m = true -> covered m = true -> simok s (step_scriptDataEndTagOpenState m).
+Lemma sim_scriptDataEndTagOpenState : forall m s, R m s -> st m = scriptDataEndTagOpenState -> wk m = true -> plain m = true -> simok s (step_scriptDataEndTagOpenState m).
 Proof. sim_state step_scriptDataEndTagOpenState. Qed.
 
-Lemma sim_scriptDataEscapeStartState : forall m s, R m s -> st m = scriptDataEscapeStartState -> wk m = true -> covered m = true -> simok s (step_scriptDataEscapeStartState m).
+Lemma sim_scriptDataEscapeStartState : forall m s, R m s -> st m = scriptDataEscapeStartState -> wk m = true -> plain m = true -> simok s (step_scriptDataEscapeStartState m).
 Proof. sim_state step_scriptDataEscapeStartState. Qed.
 
